@@ -147,6 +147,8 @@ GOALS = [("fullreplace", dict(name="GF", na=2, maxn=2, vals="0", bals="4", AS=1,
 def goals(ctx):
     out = []
     for goal, c, depth in GOALS:
+        if ctx.quick and goal == "holefilter":
+            continue    # the quick tier replays the stored behaviour findings/C20_goal_holefilter.json (same situation); thorough searches
         m = ctx.tlc_must("TxPool", "SPECIFICATION Spec\nINVARIANT NoGoal\nVIEW View\nCHECK_DEADLOCK FALSE\n" +
                          consts(c, ops=depth, alpha="goal", goal=goal), name="Goal_%s" % c["name"], timeout=1500)
         got = [v for v in m.printed if isinstance(v, dict) and v.get("kind") == "CEX" and str(v.get("clause", "")).startswith("goal:")]
@@ -285,6 +287,118 @@ def stress(ctx):
         ctx.report("C20/NoRace/" + where, None, {"report": r[:2500]})
 
 
+# ============================================================================ concurrent use (spec/TxPool_Conc.tla)
+READ_API = ("Nonce", "Stats", "Content", "Pending", "Locals", "Status", "Get")
+
+
+def race_binary(ctx):
+    """The txpool driver built with the race detector (None when the race runtime is not usable here)."""
+    import re
+    import subprocess
+    if "txpool" not in ctx.vdrives:
+        ctx.build_harness("txpool")          # also writes the modfile of a scratch VERIF_REPO
+    binp = ctx.path("vdrive_txpool_race")
+    if os.path.exists(binp):
+        return binp
+    cmd = ["go", "build", "-race", "-tags", "verif", "-o", binp]
+    if vlib.REPO != "/repo":
+        tag = "_" + re.sub(r"\W+", "_", vlib.REPO)
+        cmd += ["-modfile=" + os.path.join(vlib.WORK, "bin", "go%s.mod" % tag)]
+    p = subprocess.run(cmd + ["./cmd/txpool"], cwd=vlib.HARNESS, env=vlib.goenv(), stdout=subprocess.PIPE, stderr=subprocess.STDOUT, text=True)
+    if p.returncode != 0:
+        ctx.note("race build of the txpool driver failed, falling back to the plain binary with more readers: %s" % p.stdout[-300:])
+        return None
+    return binp
+
+
+def conc_stage(ctx, groups):
+    """Concurrent blocks: every writer step of the given behaviours runs against k concurrent readers of the whole read API.
+    Verdicts: a race report of the Go race detector, a crash of the driver process (fatal concurrent map access, panic), a read
+    that is the view of no state between the start and the end of its block."""
+    import glob
+    import re
+    ctx.assumptions += ["concurrent use: the read API (Nonce, Stats, Content, Pending, Locals, Status) overlaps itself and one writer step of the "
+                        "synchronous alphabet at a time; readers are released by a barrier together with the writer, also right after head resets "
+                        "(cold nonce cache); 'never race' in the memory-model sense is the Go race detector's verdict on the blocks performed"]
+    binp = race_binary(ctx)
+    saved = ctx.vdrives.get("txpool")
+    logp = ctx.path("conc_race.log")
+    for f in glob.glob(logp + "*"):
+        os.remove(f)
+    blocks = 0
+    for tag, c, behs in groups:
+        bpath = ctx.path("conc_behaviours_%s.ndjson" % tag)
+        vlib.write_ndjson(bpath, behs)
+        trace = ctx.path("conc_trace_%s.ndjson" % tag)
+        if binp:
+            ctx.vdrives["txpool"] = binp
+            os.environ["GORACE"] = "exitcode=0 log_path=%s" % logp
+        try:
+            info = ctx.drive("txpool", trace, behaviours=bpath, opts={"mode": "conc", "readers": 3 if binp else 6}, timeout=1200)
+        finally:
+            os.environ.pop("GORACE", None)
+            if saved:
+                ctx.vdrives["txpool"] = saved
+        ctx.cov["traces_validated_against_impl"] += len(behs)
+        ctx.cov["evaluations"] += len(behs)
+        # a crash of the driver inside a concurrent block is the verdict (the behaviour replays sequentially without it)
+        for a in info["aborts"]:
+            m = re.search(r"concurrent map [a-z ]+", a.get("msg", ""))
+            disc = "crash+" + (m.group(0).replace(" ", "_") if m else "process_abort")
+            sig = "C20/ConcurrentReadsConsistent/" + "+".join(sorted(disc.split("+")))
+            ctx.report(sig, vlib.save_behaviour_replay(ctx, sig, bpath, a["b"], {"driver": "txpool", "mode": "conc"}), a)
+        ev_n = 0
+        with open(trace) as fh:
+            for line in fh:
+                if '"reads"' in line:
+                    ev_n += 1
+        blocks += ev_n
+        # linearisability of the reads against the design layer
+        conf = ctx.tlc("TxPool_Conc", T_CFG + consts(c, ops=1000000, maxn=max(4, c.get("maxn", 2))), name="Conc_%s" % tag,
+                       files={"trace.ndjson": trace}, workers=1, timeout=1500, count=False, xss="256m")
+        res = [v for v in conf.printed if isinstance(v, dict) and v.get("kind") == "CRESULT"]
+        rej = [v for v in conf.printed if isinstance(v, dict) and v.get("kind") == "REJECTED"]
+        if res:
+            # branches of the model (ties) may each reach the end: a read is stale only if it is stale on every branch
+            stale = None
+            for r in res:
+                here = {v[0]: v[1] for v in r.get("viol", [])}
+                stale = here if stale is None else {k: v for k, v in stale.items() if k in here}
+            events = vlib.read_ndjson(trace) if stale else []
+            for api, line in sorted((stale or {}).items()):
+                sig = "C20/ConcurrentReadsConsistent/%s+stale" % api
+                tid = events[line - 1].get("t") if 0 < line <= len(events) else None
+                rp = vlib.save_behaviour_replay(ctx, sig, bpath, tid, {"driver": "txpool", "mode": "conc"}) if tid is not None else None
+                ev = events[line - 1] if 0 < line <= len(events) else {}
+                ctx.report(sig, rp, {"line": line, "event": {k: v for k, v in ev.items() if k != "obs"}})
+            ctx.cov["conc_%s" % tag] = "checked %d events" % res[0]["events"]
+        elif info["aborts"]:
+            ctx.cov["conc_%s" % tag] = "trace with aborted blocks"
+        else:
+            ctx.cov["drift_events"] += 1
+            ctx.cov["conc_%s" % tag] = "rejected: %s" % (json.dumps(rej[0])[:600] if rej else (conf.error or conf.violated or "no verdict"))
+            print("DRIFT: property=C20 concurrent trace left the design layer of TxPool.tla: %s" % ctx.cov["conc_%s" % tag], flush=True)
+    ctx.cov["conc_blocks"] = blocks
+    # the race detector's reports
+    reports = [open(f).read() for f in sorted(glob.glob(logp + "*"))]
+    ctx.cov["conc_race_detector"] = bool(binp)
+    ctx.cov["conc_race_reports"] = len(reports)
+    seen = set()
+    for text in reports:
+        for rep in text.split("==================")[:40]:
+            if "DATA RACE" not in rep:
+                continue
+            apis = [a for a in READ_API if re.search(r"\(\*TxPool\)\.%s\(" % a, rep)]
+            m = re.search(r"(?:Read|Write|Previous read|Previous write) at .*?\n\s+(\S+?)\(", rep)
+            where = apis[0] if apis else (m.group(1).split("/")[-1] if m else "unknown")
+            sig = "C20/ConcurrentReadsConsistent/" + "+".join(sorted([where, "race"]))
+            if sig not in seen:
+                seen.add(sig)
+                ctx.report(sig, None, {"report": rep[:2500]})
+    if blocks == 0 and not ctx.violations:
+        raise vlib.Undecided("concurrency stage performed no block")
+
+
 def witnesses():
     out = []
     wdir = os.path.join(vlib.VERIF, "findings")
@@ -325,8 +439,11 @@ def run(ctx):
                  (CFG_D, dict(g1_depth=0, g1_keep=0, sim_num=500, sim_depth=14, sim_keep=20000)),
                  (CFG_E, dict(g1_depth=0, g1_keep=0, sim_num=500, sim_depth=14, sim_keep=20000))]
     keep = None
+    conc_groups = []
     for c, kw in plan:
         behs = generate(ctx, c, **kw)
+        if c is CFG_B or c is CFG_C:
+            conc_groups.append((c["name"], c, behs[:(120 if quick else 1500)]))
         for b in behs[:2]:
             ctx.sample(b)
         trace, _ = judge(ctx, c, behs, c["name"])
@@ -334,6 +451,7 @@ def run(ctx):
             keep = (c, trace)
     if not quick and keep:
         selftest(ctx, *keep)
+    conc_stage(ctx, conc_groups)
     if not quick:
         stress(ctx)
     fired = ctx.cov.get("clauses_fired", {})
